@@ -84,7 +84,7 @@ class Obligation:
 class Interp:
     MAX_DEPTH = 40
 
-    def __init__(self, repo, schedule=(), contracts=None, cfg=None, feas_timeout_ms=1500):
+    def __init__(self, repo, schedule=(), contracts=None, cfg=None, feas_timeout_ms=1500, _no_realize=False):
         self.repo = repo
         self.schedule = list(schedule)
         self.taken = []
@@ -95,6 +95,7 @@ class Interp:
         self.solver.set('timeout', feas_timeout_ms)
         self.contracts = contracts or {}
         self.cfg = ConfigV(repo.config_data if cfg is None else cfg)
+        self._raw_cfg = repo.config_data if cfg is None else cfg
         self.depth = 0
         self.writes = []          # heap writes to non-fresh objects: (obj, field, lineno, qual)
         self.trace = []           # branch decisions as text
@@ -109,6 +110,12 @@ class Interp:
         self.hyp_tags = []        # parallel to hyps: group tag of each hypothesis ('pc', 'enum', 'sigma', ...)
         self.cur_tag = 'pc'
         self.globals = self._make_globals()
+        if not _no_realize:
+            data, note = realized_config(repo, self._raw_cfg)
+            self.cfg = ConfigV(data)
+            self.globals['config'] = self.cfg
+            if note:
+                self.notes.append(note)
 
     # ------------------------------------------------------------------ hypotheses / decisions
     def assume(self, c):
@@ -223,6 +230,16 @@ class Interp:
         from . import builtins_ as B
         for n, fn in B.BUILTINS.items():
             g[n] = BuiltinV(n, fn)
+        # module-level constants (NAME = <literal expression>), in source order
+        for m in self.repo.modules.values():
+            for st in m.tree.body:
+                if isinstance(st, ast.Assign) and len(st.targets) == 1 and isinstance(st.targets[0], ast.Name) \
+                        and st.targets[0].id not in g and _literal_expr(st.value, g):
+                    try:
+                        self.globals = g
+                        g[st.targets[0].id] = self.ev(st.value, Env(None, g))
+                    except (Raised, Unsupported):
+                        pass
         return g
 
     # ------------------------------------------------------------------ class helpers
@@ -1226,6 +1243,67 @@ class Interp:
 
     def s_With(self, st, env):
         raise Unsupported("with statement")
+
+
+def _literal_expr(e, g):
+    """an expression made of literals, arithmetic and names of earlier module-level constants only"""
+    for n in ast.walk(e):
+        if isinstance(n, (ast.Constant, ast.UnaryOp, ast.BinOp, ast.operator, ast.unaryop, ast.Tuple, ast.List, ast.Dict,
+                          ast.Load, ast.expr_context)):
+            continue
+        if isinstance(n, ast.Name) and n.id in g and not isinstance(g[n.id], (ClassV, TypeMarker, BuiltinV, ModuleV, ConfigV)):
+            continue
+        return False
+    return True
+
+
+_CFG_CACHE = {}
+
+
+def realized_config(repo, data):
+    """The configuration object as the library's own Config.__init__ builds it from the yaml data of this run: the
+    statements of Config.__init__ AFTER the one that binds `yaml_config` are executed by the engine with `yaml_config`
+    := the parsed yaml (extraction drops the search for the file and the yaml parsing).  Falls back to `attributes = yaml
+    keys` (with a note) when that code is outside the supported subset."""
+    import json as _json
+    key = (id(repo), _json.dumps(data, sort_keys=True, default=str))
+    if key in _CFG_CACHE:
+        return _CFG_CACHE[key]
+    out, note = dict(data), None
+    try:
+        info = repo.classes.get('Config')
+        fn = info.methods['__init__'] if info is not None else None
+        if fn is None:
+            raise Unsupported('no class Config')
+        idx = None
+        for i, st in enumerate(fn.body):
+            if any(isinstance(n, ast.Name) and n.id == 'yaml_config' and isinstance(n.ctx, ast.Store) for n in ast.walk(st)):
+                idx = i
+        if idx is None:
+            raise Unsupported('Config.__init__ binds no yaml_config')
+        I = Interp(repo, [], cfg=data, _no_realize=True)
+        o = I.new_obj('Config', fresh_=True, tag='config')
+        env = Env(None, I.globals)
+        env.set('self', o)
+        env.set('__class__', ClassV(info))
+        env.set('yaml_config', {k: (dict(v) if isinstance(v, dict) else v) for k, v in data.items()})
+        I.call_stack.append('Config.__init__')
+        I.exec_block(fn.body[idx + 1:], env)
+        if I.pending:
+            raise Unsupported('Config.__init__ forks')
+        got = {}
+        for k, v in o.fields.items():
+            if isinstance(v, Fraction):
+                v = float(v)
+            got[k] = v
+        for k in ('internal_precision', 'moles_storage_unit', 'volume_storage_unit', 'precisions'):
+            if k not in got:
+                raise Unsupported(f'Config.__init__ sets no {k}')
+        out = got
+    except (Unsupported, Raised, PathEnd, KeyError, AttributeError, TypeError) as e:
+        note = f'config: Config.__init__ could not be executed on the yaml data ({type(e).__name__}: {e}); attributes = yaml keys'
+    _CFG_CACHE[key] = (out, note)
+    return out, note
 
 
 class CacheOwner:
